@@ -106,6 +106,10 @@ func VX_C13_Redial(args []int) {
 			vxFail("session not listed after the loss: close notification fired" + note)
 		}
 		vxAssert(p.CountSession() == 0, "attempts exhausted: session left the index"+note)
+		vxAssert(R != 9, "unlimited redial budget: the session never gives up while the server is unreachable"+note)
+		if R != 9 {
+			vxAssert(attempts-1 >= R, "the session gives up only after the configured number of redial attempts"+note)
+		}
 		before := attempts
 		c3 := s.AsyncCall("/c", []byte("z"), new([]byte), make(chan CallCmd, 1))
 		vxWaitIdle()
